@@ -665,6 +665,7 @@ func init() {
 		cbSuite(c, monC01, "Monitor: decoded reply (status, subject, attributes, signature values) and raw reply bytes vs. the user's markers; SetUserinfoWithUserID invocations.")
 	}
 	props["C03"] = func(c *Ctx) {
+		buildersDiff(c)
 		cbSuite(c, monC03, "Monitor: decoded Success response compared field by field with the storage record, the user record and the wall-clock bracket of the call.")
 	}
 }
